@@ -156,7 +156,8 @@ def run(ctx: Ctx):
                 and n.test.comparators[0].value in ("center", "corner")):
             continue
         which = n.test.comparators[0].value
-        rets = [b.value for b in n.body if isinstance(b, ast.Return) and isinstance(b.value, ast.Call)]
+        from ..model import returned_exprs
+        rets = [v for v in returned_exprs(fi.node, within=n.body) if isinstance(v, ast.Call)]
         ok, got = False, "?"
         if len(rets) == 1 and getattr(rets[0].func, "id", "") == "Uniform":
             kws = {k.arg: k.value for k in rets[0].keywords}
